@@ -180,6 +180,10 @@ def gen_cases(tier, seed):
                           'chained': True}
                     if outcome != 'success':
                         _foc(rng, t, sp)
+                    if rng.random() < 0.3:
+                        # everything inline in the caller's thread (what use_threads=False selects): the callback then runs INSIDE the
+                        # manager call that started the first transfer
+                        sp['executor'] = 'nonthreaded'
                     cases.append({'style': 'chained', 'spec': sp})
 
     from ..gen import sprinkle
